@@ -5,7 +5,8 @@
 (* traces) or as one Simulation per partition (independent traces).           *)
 (*   [ id, mode ("coord" | "indep"), ep, np, links << <<p,q,lat>>.. >>, w,    *)
 (*     endT, n0, s0 (first window end),                                        *)
-(*     evs << <<t, tgt, par, cby>>.. >>     the program (ticks; cby = canceller) *)
+(*     evs << <<t, tgt, par, cby, d>>.. >>  the program (ticks; cby = canceller,  *)
+(*                                          d = 1 for a daemon event)           *)
 (*     seq << per entity: << <<i, t>>.. >> >>  reference run, observed         *)
 (*     log << record.. >> ]                 partitioned run, observed:         *)
 (*   <<"d", p, i, t>>  partition p delivered event i, entity clock read t       *)
@@ -47,7 +48,8 @@ Rng(s) == { s[k] : k \in 1..Len(s) }
 TLinks(T) == { <<x[1], x[2]>> : x \in Rng(T.links) }
 TLat(T) == [k \in TLinks(T) |-> (CHOOSE x \in Rng(T.links) : <<x[1], x[2]>> = k)[3]]
 TEv(T) == [k \in 1..Len(T.evs) |-> [t |-> T.evs[k][1], tgt |-> T.evs[k][2], par |-> T.evs[k][3],
-                                      cby |-> IF Len(T.evs[k]) >= 4 THEN T.evs[k][4] ELSE 0]]
+                                      cby |-> IF Len(T.evs[k]) >= 4 THEN T.evs[k][4] ELSE 0,
+                                      d |-> Len(T.evs[k]) >= 5 /\ T.evs[k][5] = 1]]
 
 \* state of Windowed.tla at the first window of the partitioned run of trace T
 LoadState(T) ==
@@ -202,6 +204,8 @@ Stranded ==
                                     /\ Tr.evs[i][1] >= oovr[q] /\ Tr.evs[i][1] < oclk[q] }
 Explained(i) == Anc(i) \cap (known \cup Stranded) # {}
 JudgedT(t) == Tr.endT = Inf \/ t < Tr.endT
+\* every missing delivery is a daemon event or exists only through one (names the shape of the failure)
+TDaemon(i) == \E k \in Anc(i) : Len(Tr.evs[k]) >= 5 /\ Tr.evs[k][5] = 1
 TErr == IF "err" \in DOMAIN Tr THEN Tr.err ELSE ""
 ObsSet(lg) == UNION { { <<e, lg[e][k][1], lg[e][k][2]>> : k \in 1..Len(lg[e]) } : e \in DOMAIN lg }
 FinalVerdict ==
@@ -217,6 +221,9 @@ FinalVerdict ==
        ELSE IF Tr.mode = "indep" /\ \E e \in DOMAIN olog : olog[e] # Tr.seq[e]
             THEN <<"PROP:independent_differs", 0>>
        ELSE IF retimed # {} THEN <<"PROP:delivery_time", 0>>
+       ELSE IF missing # {} /\ \A x \in missing : TDaemon(x[2])
+            THEN <<IF \E x \in missing : TCross(x[2]) THEN "PROP:cross_event_lost:daemon_events"
+                   ELSE "PROP:missing_delivery:daemon_events", 0>>
        ELSE IF \E x \in missing : TCross(x[2]) THEN <<"PROP:cross_event_lost", 0>>
        ELSE IF missing # {} THEN <<"PROP:missing_delivery", 0>>
        ELSE IF extra # {} THEN <<"PROP:extra_delivery", 0>>
